@@ -92,6 +92,27 @@ def pattern_values(p, what):
     return vals
 
 
+def split_top(src, what):
+    """split at commas that are not inside (), [] or {}"""
+    parts, depth, cur = [], 0, []
+    for ch in src:
+        if ch in "([{":
+            depth += 1
+        elif ch in ")]}":
+            depth -= 1
+            if depth < 0:
+                fail("%s: unbalanced brackets in match arms" % what)
+        if ch == "," and depth == 0:
+            parts.append("".join(cur))
+            cur = []
+        else:
+            cur.append(ch)
+    if depth != 0:
+        fail("%s: unbalanced brackets in match arms" % what)
+    parts.append("".join(cur))
+    return parts
+
+
 def match_arms(fn_body, field, what):
     """the single `match self.<field> { pat => rhs, ... }` that is the whole function body.
     returns ([(value, rhs)], default_rhs) with first-match-wins semantics resolved"""
@@ -102,7 +123,7 @@ def match_arms(fn_body, field, what):
         fail("%s: matches on self.%s, expected self.%s" % (what, m.group(1), field))
     arms_src, tail = m.group(2), (m.group(3) or "")
     arms, default, seen = [], None, set()
-    for raw in arms_src.split(","):
+    for raw in split_top(arms_src, what):
         if not raw.strip():
             continue
         if "=>" not in raw:
@@ -130,11 +151,18 @@ CART_STATES = {"NullCartState": 0, "MBC1CartState": 1, "MBC3CartState": 3}
 MBC_TYPES = {"None": 0, "MBC1": 1, "MBC2": 2, "MBC3": 3, "MBC5": 5, "Unknown": 255}
 
 
+# constructor argument lists the models know: none, or (ROM banks of the header, RAM banks = RAM bytes / 0x2000)
+CART_STATE_ARGS = {"", "self.get_rom_bank_count(),self.get_ram_size_bytes()/0x2000"}
+
+
 def cart_state_rhs(rhs, what):
-    m = re.fullmatch(r"Box::new\(\s*(\w+)::new\(\)\s*\)", rhs)
+    m = re.fullmatch(r"Box::new\(\s*(\w+)::new\((.*)\)\s*\)", rhs, flags=re.S)
     if m:
         if m.group(1) not in CART_STATES:
             fail("%s: unknown cartridge state type %s (extend CART_STATES and the Lean models)" % (what, m.group(1)))
+        args = re.sub(r"\s+", "", m.group(2)).rstrip(",")
+        if args not in CART_STATE_ARGS:
+            fail("%s: unrecognised constructor arguments %r for %s" % (what, m.group(2).strip(), m.group(1)))
         return CART_STATES[m.group(1)]
     if re.fullmatch(r'panic!\(\s*"[^"]*"\s*\)', rhs):
         return None
